@@ -305,6 +305,15 @@ Definition udispatch (d : dutytype) (b : bytes) : option (utype * V) :=
   | _ => None
   end.
 
+(* A repaired decoder validates the decoded value before returning it (the check accepts both the
+   unrepaired and the repaired code, see EnvelopeCorr.v): [usable] says that the accessors used later
+   (MessageRoot, Signature, Clone / MarshalJSON, Clone) succeed on the value. *)
+Definition validated {Ty} (usable : V -> bool) (r : option (Ty * V)) : option (Ty * V) :=
+  match r with
+  | Some (t, v) => if usable v then Some (t, v) else None
+  | None => None
+  end.
+
 Definition sallowed (d : dutytype) : list stype :=
   match d with
   | DAttester => [TVersionedAttestation]
